@@ -269,7 +269,7 @@ class C06(PropBase):
                 "wrapping_div/rem by zero), the result does not depend on the order in which non-.cfa/.ra rules are applied when targets do not alias, each documented "
                 "failure makes exactly its rule fail (mandatory rule -> None, other register -> cleared), a whole unwind step (INIT + delta records, lookup address) equals "
                 "an independent transcription of the documented semantics for the abstract walker and for CfiStackWalker on x86/amd64/arm64 (c06_refines_spec, "
-                "c06_real_walker_refines_spec), re-tokenising the kept substring yields the model's token lists (c06_retokenise). The evaluator these theorems speak about is "
+                "c06_real_walker_refines_spec), re-tokenising the kept substring yields the model's token lists (c06_retokenise), record selection = the delta records at or below the lookup address in (address, text) order (c06_selection_spec), declarative specs of the tokenizer and of decimal literals (c06_tokenizer_spec, c06_literal_spec), aliasing targets of the real walker: the greatest register name decides (c06_real_alias_last_name_wins). The evaluator these theorems speak about is "
                 "REGENERATED from walker.rs / mod.rs / parser.rs on every run (Gen/CfiOps.v: operator arms as statement lists, default chain, label chain, walk skeleton, "
                 "record selection) and proved equal to the hand model (c06_gen_model_is_model, c06_gen_*); the architecture tables are those of Gen/UnwindConsts.v "
                 "(c06_arch_tables_pinned). The extracted generated model is compared with the code on exhaustive short programs in every rule position, rule-isolation "
